@@ -77,7 +77,7 @@ def register(R):
                    ]}},
                ensures=[
                    ("C01", "self._total_samples == old(self._total_samples) + 1"),
-                   ("C01", "self._samples_since_reset == (1 if %s else old(self._samples_since_reset) + 1)" % FRESH),
+                   ("C01,C02", "self._samples_since_reset == (1 if %s else old(self._samples_since_reset) + 1)" % FRESH),
                    # a correct prediction changes no statistic and no state
                    ("C05", "implies(%s == 0, %s and self._drift_state == %s)" % (
                        E, " and ".join("self.%s == %s" % (f, ep(f)) for f in STAT_FIELDS), STATE0)),
